@@ -113,7 +113,7 @@ set_option maxRecDepth 16384 in
 /-- pkg/store/helper.go as modelled (part 2 of 3): its declarations (in source order) and the outline of each -/
 theorem C10.src_store_helper_as_modelled_2 :
     Uniflow.Generated.StoreFuncs.o_store_helper_fn_patch = [
-      "doc = doc.Mutable()",
+      "doc = doc.Immutable().Mutable()",
       "for k, value := range update.Range()",
       "  key, ok := k.(types.String)",
       "  if !ok",
